@@ -1,6 +1,53 @@
-/- C06 — model not written yet (stub so that the driver target exists). -/
-namespace Nitime.C06
+/-
+C06 — cross-spectral matrices.  The estimators themselves are modelled in
+`Nitime/Model/C04.lean` (`periodogramCsdAt`, `multiTaperCsdAt`, `welchSpectraAt`, with the
+lower-triangle pair loops `lowerPairs` and the completion `completeHermitian` of the source);
+this file adds the Hermitian completion of the upper-triangular array that
+`get_spectra(method='welch')` returns by design, and the driver operations.
 
-def handle (_args : List String) : String := "bad-op"
+Operations (Float reading; arguments exactly as for C04, see `Nitime/Model/C04.lean`):
+    pcsd … / mtcsd … / welch …      the matrices as the functions return them
+    welchc <Fs> <N> <noverlap> <sides> <M> <window> <x>   the completed Welch matrix
+-/
+import Nitime.Model.C04
+
+namespace Nitime.C06
+open Nitime.Num Nitime.C04
+
+section generic
+variable {R K : Type} [RScalar R] [CScalar R K]
+
+/-- fill the lower triangle of an upper-triangular array with the conjugates:
+`C[i][j] = W[i][j]` for `i ≤ j`, `conj W[j][i]` otherwise -/
+def completeUpper (W : Nat → Nat → Nat → K) (i j m : Nat) : K :=
+  if i ≤ j then W i j m else conj (W j i m)
+
+/-- completed Welch cross-spectral matrix -/
+def welchCompletedAt (tw : Nat → K) (Fs : R) (n N noverlap : Nat) (onesided : Bool) (win : Nat → R)
+    (x : Nat → Nat → K) (i j m : Nat) : K :=
+  completeUpper (welchSpectraAt tw Fs n N noverlap onesided win x) i j m
+
+def welchCompletedList (tw : Nat → K) (Fs : R) (n N noverlap M : Nat) (onesided : Bool)
+    (win : Nat → R) (x : Nat → Nat → K) : List K :=
+  let X := memoArr3 M (welchSegs n N noverlap) N fun i => segSpec tw N n noverlap win (x i)
+  matList M (outLen N onesided)
+    (completeUpper (welchSpectraOf Fs n N noverlap onesided win
+      (memoGet3 X fun i => segSpec tw N n noverlap win (x i))))
+
+end generic
+
+open Nitime.Proto
+
+def handle (args : List String) : String :=
+  match args with
+  | ["welchc", fs, nfft, nov, sides, m, win, xs] =>
+    match parseFloat? fs, nfft.toNat?, nov.toNat?, m.toNat?, parseFArray? win, parseCList? xs with
+    | some Fs, some N, some nov, some M, some w, some x =>
+      if M = 0 ∨ N = 0 ∨ nov ≥ N then "bad-op" else
+      let n := x.size / M
+      let tw := twiddleFn N (twiddleTable N)
+      "ok " ++ showCList (welchCompletedList tw Fs n N nov M (sides == "1") (ffn w) (chan x n))
+    | _, _, _, _, _, _ => "bad-op"
+  | _ => Nitime.C04.handle args
 
 end Nitime.C06
